@@ -199,6 +199,38 @@ def macro_skip_none(P):
     return True, "", [b.span]
 
 
+def break_only_from_visitor_rule(chk, P, key):
+    """`Break` means *the visitor asked to stop*: no `Props::for_each` impl manufactures one.  Every `ControlFlow::Break` an impl body constructs itself
+    (outside `?`, which hands on the visitor's own) sits behind the Break edge of a visitor / inner-enumeration result; an impl that answers Break for an
+    absent optional part, an empty collection or any other reason of its own makes every enclosing `and_props` / array stop enumerating there, while
+    lookups still find the later keys."""
+    def f():
+        n, ev = 0, []
+        for fb in P.find(trait=PROPS, method="for_each"):
+            if fb.is_closure:
+                continue
+            n += 1
+            for bb, j, st in fb.statements(normal_only=True):
+                if not (st["k"] == "assign" and st["rv"]["k"] == "agg" and st["rv"].get("variant") == "Break" and (st["rv"].get("adt") or "").endswith("ControlFlow")):
+                    continue
+                ok = False
+                for g, vals, tgt in fb.guards_of(bb):
+                    so = fb.switch_origin(g)
+                    x = so[1] if so[0] == "discr" else so
+                    while x[0] in ("field", "downcast", "copy", "ref", "deref"):
+                        x = x[1]
+                    if x[0] == "call" and x[1].callee.get("name") in ("call_mut", "call", "call_once", "for_each", "branch", "is_break", "is_continue"):
+                        ok = True
+                if not ok:
+                    return False, ("%s answers ControlFlow::Break at %s:%s on its own account (not behind a Break from the visitor or an inner enumeration): "
+                                   "enumeration of every enclosing collection stops there although nothing asked it to" % (fb.key, fb.file, st.get("line"))), [], "%s:%s" % (fb.file, st.get("line"))
+                ev.append("%s:%s" % (fb.file, st.get("line")))
+        if n < 20 and not getattr(chk, "_overlay", None):
+            raise mir.AnchorMissing("Props::for_each impls (found %d)" % n)
+        return True, "", ev or ["%d impls, none constructs a Break itself" % n]
+    chk.ob(key, "no Props::for_each impl answers Break unless its visitor (or an inner enumeration) did", f)
+
+
 def no_truncating_adaptors_rule(chk, P, key):
     def no_truncating_adaptors():
         EARLY = ("map_while", "take_while", "take", "scan", "step_by", "nth", "last", "min", "max", "find", "position", "any", "all")
@@ -768,6 +800,7 @@ def run(chk):
     common.results_inspected_rule(
         chk, P, "C02.R1:views-propagate", "no step of a map view of a property collection (AsMap's sval / serde / fmt impls) has its Result discarded",
         lambda b: b.crate == "emit_core" and "AsMap<" in b.key and "::tests::" not in b.key, {}, 6)
+    break_only_from_visitor_rule(chk, P, "C02.R1:break-only-from-visitor")
     common.wrapper_family_rule(chk, P, "C02", "emit_core::props::Props", 2, forward=False, allow={
         ("alloc::boxed::Box<", "get"): "the default get enumerates the boxed collection's own for_each (coherent by construction)",
         ("alloc::boxed::Box<", "is_unique"): "the default (false) only disables a shortcut",
